@@ -3,9 +3,10 @@
 EXTENDS Core
 Order1 == <<"A">>
 Hooks_none1 == ("A" :> {})
-Opts_plain == {[os |-> FALSE, ac |-> FALSE]}
-Opts_os == {[os |-> FALSE, ac |-> FALSE], [os |-> TRUE, ac |-> FALSE]}
-Opts_all == {[os |-> FALSE, ac |-> FALSE], [os |-> TRUE, ac |-> FALSE], [os |-> FALSE, ac |-> TRUE]}
+Opts_plain == {[os |-> FALSE, ac |-> FALSE, pr |-> "N"]}
+Opts_lowprio == {[os |-> FALSE, ac |-> FALSE, pr |-> "N"], [os |-> FALSE, ac |-> FALSE, pr |-> "L"]}
+Opts_os == {[os |-> FALSE, ac |-> FALSE, pr |-> "N"], [os |-> TRUE, ac |-> FALSE, pr |-> "N"]}
+Opts_all == {[os |-> FALSE, ac |-> FALSE, pr |-> "N"], [os |-> TRUE, ac |-> FALSE, pr |-> "N"], [os |-> FALSE, ac |-> TRUE, pr |-> "N"]}
 Tb_vals2 == {<<0, 0>>, <<2, 1>>, <<2, 2>>}
 Tb_vals == {<<0, 0>>, <<1, 0>>, <<1, 1>>, <<1, 2>>}
 Order2 == <<"A", "B">>
